@@ -602,6 +602,10 @@ class _Return(Exception):
         self.v = v
 
 
+class _Continue(Exception):
+    pass
+
+
 class Machine(Evaluator):
     """Concrete interpreter for small decision functions: locals, assignments, if / switch (with fall-through) /
     return.  Calls are delegated to `call_hook(machine, call_ast)`; globals to `global_hook(name)`.
@@ -636,6 +640,8 @@ class Machine(Evaluator):
                 if r is not NotImplemented:
                     return r
             raise Unsupported('global ' + e['n'])
+        if k == 'Member' and ('.' + e['m']) in self.env and (e.get('obj') is None or strip_casts(e['obj']).get('k') == 'This'):
+            return self.env['.' + e['m']]
         if k == 'Un' and e['op'] == '*':
             return self.ev(e['e'])
         if k == 'Un' and e['op'] in ('++', '--'):
@@ -714,7 +720,30 @@ class Machine(Evaluator):
             raise _Return(self.ev(s['e']) if s.get('e') else None)
         elif k == 'Null':
             pass
-        elif k in ('While', 'For', 'Do', 'Try', 'Goto', 'Label', 'Continue'):
+        elif k in ('While', 'For', 'Do'):
+            # concrete loops, bounded by a step budget (interpretation over small finite inputs only)
+            if k == 'For' and s.get('init'):
+                self.exec(s['init'])
+            first = True
+            while True:
+                self.fuel = getattr(self, 'fuel', 20000) - 1
+                if self.fuel < 0:
+                    raise Unsupported('loop budget exhausted')
+                if not (k == 'Do' and first):
+                    if s.get('cond') is not None and not self.ev(s['cond']):
+                        break
+                first = False
+                try:
+                    self.exec(s['body'])
+                except _Break:
+                    break
+                except _Continue:
+                    pass
+                if k == 'For' and s.get('inc'):
+                    self.ev(s['inc'])
+        elif k == 'Continue':
+            raise _Continue()
+        elif k in ('Try', 'Goto', 'Label'):
             raise Unsupported('stmt ' + k)
         else:
             if k == 'Cast' and s.get('ck') == 'ToVoid':
